@@ -200,6 +200,62 @@ fn gen_divmod(g: &mut G) -> Case {
     c.input(a).input(b)
 }
 
+/// Clip: min < max, min = max, min > max (every output must be max), absent min / max / both;
+/// opset-6 attribute form (floats) and opset-11+ scalar (0-D) inputs; data as run input (in place)
+/// or initializer.
+fn gen_clip(g: &mut G) -> Case {
+    let dt = g.num_dtype();
+    let s = g.shape(0, 4);
+    let x = g.t(dt, &s, -8, 8);
+    let lo0 = g.rng.range(-6, 6);
+    let (lo, hi) = match g.rng.below(7) {
+        0 | 1 => (Some(lo0), Some(lo0 + g.rng.range(1, 6))),
+        2 => (Some(lo0), Some(lo0)),
+        3 => (Some(lo0), Some(lo0 - g.rng.range(1, 6))),
+        4 => (None, Some(lo0)),
+        5 => (Some(lo0), None),
+        _ => (None, None),
+    };
+    let attr_form = dt == DType::F32 && g.rng.chance(1, 3);
+    let mut c = Case::new("Clip", if attr_form { g.opset(&[1, 6]) } else { g.opset(&[11, 12, 13]) });
+    if attr_form {
+        if let Some(v) = lo { c = c.attr_f("min", v); }
+        if let Some(v) = hi { c = c.attr_f("max", v); }
+        return c.input(x);
+    }
+    c = c.input(x);
+    match (lo, hi) {
+        (None, None) => {}
+        (Some(l), None) => { let t = g.scalar(dt, l); c = c.input(t); }
+        (l, Some(h)) => {
+            match l { Some(l) => { let t = g.scalar(dt, l); c = c.input(t); } None => { c = c.no_input(); } }
+            let mut t = g.scalar(dt, h);
+            if g.rng.chance(1, 40) { t.dims = vec![1]; }   // not a scalar: outside the specification
+            c = c.input(t);
+        }
+    }
+    c
+}
+
+/// other cheap element-wise operators: Relu, LeakyRelu (integer alpha), Floor/Ceil/Round and
+/// IsNaN/IsInf on integer-valued floats, variadic Max/Min/Sum with broadcasting
+fn gen_elementwise2(g: &mut G) -> Case {
+    let op = g.rng.pick(&["Relu", "LeakyRelu", "Floor", "Ceil", "Round", "IsNaN", "IsInf", "Max", "Min", "Sum", "Max", "Min", "Sum"]);
+    match op {
+        "Max" | "Min" | "Sum" => {
+            let out = g.shape(0, 4);
+            let dt = g.num_dtype();
+            let n = g.rank(1, 4);
+            let mut c = Case::new(op, g.opset(&[8, 12, 13]));
+            for _ in 0..n { let si = g.bcast_operand(&out); let t = g.t(dt, &si, -8, 8); c = c.input(t); }
+            c
+        }
+        "Relu" => { let dt = if g.rng.chance(1, 10) { DType::I32 } else { DType::F32 }; let s = g.shape(0, 4); let t = g.t(dt, &s, -8, 8); Case::new(op, g.opset(&[6, 13, 14])).input(t) }
+        "LeakyRelu" => { let s = g.shape(0, 4); let t = g.t(DType::F32, &s, -8, 8); Case::new(op, g.opset(&[6, 16])).attr_f("alpha", g.rng.range(-2, 3)).input(t) }
+        _ => { let s = g.shape(0, 4); let t = g.t(DType::F32, &s, -8, 8); Case::new(op, g.opset(&[13, 20])).input(t) }
+    }
+}
+
 fn gen_unary(g: &mut G) -> Case {
     let op = g.rng.pick(&["Not", "Neg", "Abs", "Sign", "Identity"]);
     let s = g.shape(0, 4);
@@ -759,7 +815,7 @@ fn gen_maxpool(g: &mut G) -> Case {
 
 type GenFn = fn(&mut G) -> Case;
 const GENS: &[(&str, GenFn, u32)] = &[
-    ("binary", gen_binary, 8), ("divmod", gen_divmod, 2), ("unary", gen_unary, 2), ("where", gen_where, 2), ("transpose", gen_transpose, 2),
+    ("binary", gen_binary, 8), ("divmod", gen_divmod, 2), ("clip", gen_clip, 2), ("elementwise2", gen_elementwise2, 2), ("unary", gen_unary, 2), ("where", gen_where, 2), ("transpose", gen_transpose, 2),
     ("reshape", gen_reshape, 3), ("squeeze", gen_squeeze, 2), ("unsqueeze", gen_unsqueeze, 2), ("concat", gen_concat, 2),
     ("split", gen_split, 3), ("slice", gen_slice, 5), ("gather", gen_gather, 2), ("gather_elements", gen_gather_elements, 2),
     ("gather_nd", gen_gather_nd, 2), ("expand", gen_expand, 2), ("tile", gen_tile, 2), ("pad", gen_pad, 4),
@@ -773,7 +829,8 @@ const LONG_GENS: &[(&str, GenFn)] = &[
     ("topk", gen_topk), ("topk", gen_topk), ("topk", gen_topk), ("arg", gen_arg), ("arg", gen_arg), ("reduce", gen_reduce),
     ("reduce", gen_reduce), ("cumsum", gen_cumsum), ("gather", gen_gather), ("gather_elements", gen_gather_elements),
     ("scatter_elements", gen_scatter_elements), ("slice", gen_slice), ("concat", gen_concat), ("split", gen_split),
-    ("transpose", gen_transpose), ("binary", gen_binary), ("where", gen_where), ("unary", gen_unary),
+    ("transpose", gen_transpose), ("binary", gen_binary), ("where", gen_where), ("unary", gen_unary), ("clip", gen_clip),
+    ("elementwise2", gen_elementwise2),
 ];
 
 pub fn generate(seed: u64, n: usize, _tier: &str, only: Option<&str>) -> Vec<Case> {
